@@ -28,7 +28,9 @@ Definition mode_on (m : cmode) : bool := match m with MDisabled => false | _ => 
 
 Section Cfg.
 Variable cfg : nat -> tcfg.          (* options of each task *)
-Variable batch_indexes : bool.       (* generated fact *)
+Variable batch_indexes : bool.       (* generated fact: route_calls indexes arguments *)
+Variable single_indexes : bool.      (* generated fact: _route_new_call_invocation indexes arguments *)
+Variable reg_sts cand_sts auth_sts : list status.   (* generated: statuses looked up at registration / candidate / authorisation *)
 
 (* get_existing_invocations(task, key args of mode m, statuses): only INDEXED invocations can match
    an argument filter; TASK mode (no filter) matches by task alone *)
@@ -47,11 +49,8 @@ Definition existing (s : cstate) (m : cmode) (t : nat) (args : list nat) (sts : 
 Definition set_inv (i : cinv) (st' : status) (o : option runner) : cinv :=
   {| cid := cid i; ctask := ctask i; cargs := cargs i; cst := st'; cown := o; cindexed := cindexed i |}.
 
-Fixpoint update (id : nat) (f : cinv -> cinv) (l : list cinv) : list cinv :=
-  match l with
-  | [] => []
-  | i :: rest => if Nat.eqb (cid i) id then f i :: rest else i :: update id f rest
-  end.
+Definition update (id : nat) (f : cinv -> cinv) (l : list cinv) : list cinv :=
+  map (fun i => if Nat.eqb (cid i) id then f i else i) l.
 
 Fixpoint find_inv (id : nat) (l : list cinv) : option cinv :=
   match l with
@@ -85,10 +84,10 @@ Definition indexed_on_submit (t : nat) : bool :=
 Definition submit (s : cstate) (t : nat) (args : list nat) : cstate * cout :=
   let c := cfg t in
   match reg_mode c with
-  | MDisabled => (new_inv s t args (indexed_on_submit t), CNew (next_id s))
+  | MDisabled => (new_inv s t args (single_indexes && indexed_on_submit t), CNew (next_id s))
   | m =>
-      match existing s m t args [REGISTERED] with
-      | [] => (new_inv s t args (indexed_on_submit t), CNew (next_id s))
+      match existing s m t args reg_sts with
+      | [] => (new_inv s t args (single_indexes && indexed_on_submit t), CNew (next_id s))
       | e :: _ =>
           if list_eqb (cargs e) args then (s, CReused (cid e))
           else if reg_raise c then (s, CRaised) else (s, CReused (cid e))
@@ -124,7 +123,7 @@ Definition poll (s : cstate) (r : runner) : cstate * cout :=
       | None => (s1, CSkipped)
       | Some i =>
           if negb (doc_available (cst i)) then (s1, CSkipped)
-          else if blocked_by s1 i [PENDING; RUNNING] then
+          else if blocked_by s1 i cand_sts then
             if run_reroute (cfg (ctask i)) then
               if doc_edge (cst i) CONCURRENCY_CONTROLLED
               then (push (set_status s1 id REROUTED None) id, CBlockedRequeued id)
@@ -157,7 +156,7 @@ Definition cstep (s : cstate) (o : cop) : cstate * cout :=
       match find_inv id (invs s) with
       | Some i =>
           if status_eqb (cst i) PENDING then
-            if blocked_by s i [RUNNING] then (push (set_status s id REROUTED None) id, CBlockedRequeued id)
+            if blocked_by s i auth_sts then (push (set_status s id REROUTED None) id, CBlockedRequeued id)
             else (set_status s id RUNNING (cown i), CDone)
           else (s, CRefused)
       | None => (s, CRefused)
